@@ -311,7 +311,13 @@ func (s *Stack) Close() { s.Store.Close() }
 var (
 	poolMu sync.Mutex
 	pool   []*leveldbstore.LevelDBStore
+	uses   = map[*leveldbstore.LevelDBStore]int{}
 )
+
+// A store is retired after this many cases: deleted entries stay in LevelDB's memtable
+// as tombstones and every later full iteration has to step over them, so unlimited reuse
+// makes the run quadratic in the number of cases.
+const maxStoreUses = 40
 
 func AcquireStack() *Stack {
 	poolMu.Lock()
@@ -355,13 +361,18 @@ func (s *Stack) Release() {
 		it.Release()
 		return empty
 	}()
-	if !ok {
-		s.Store.Close()
-		return
-	}
 	poolMu.Lock()
-	pool = append(pool, s.Store)
+	uses[s.Store]++
+	retire := !ok || uses[s.Store] >= maxStoreUses
+	if retire {
+		delete(uses, s.Store)
+	} else {
+		pool = append(pool, s.Store)
+	}
 	poolMu.Unlock()
+	if retire {
+		s.Store.Close()
+	}
 }
 
 // ClosePool closes the pooled stores (end of the run).
@@ -369,6 +380,7 @@ func ClosePool() {
 	poolMu.Lock()
 	for _, st := range pool {
 		st.Close()
+		delete(uses, st)
 	}
 	pool = nil
 	poolMu.Unlock()
